@@ -124,6 +124,47 @@ fn q_ms_bulk_tuple_box() {
     assert!(E::heap_size_sum_iter(|| v.iter().chain(v.iter())) == 2 * expect);
 }
 
+// ---- C08: the bulk helpers equal the element-wise sum for EVERY iterator, whatever its size_hint says --------
+/// Wraps an iterator and reports an arbitrary size_hint that still honours the Iterator contract
+/// (lower <= remaining <= upper, upper possibly None): from_fn, flatten, filter, chain, ... all fall in here.
+struct AnyHint<I> { inner: I, rem: usize }
+impl<I: Iterator> Iterator for AnyHint<I> {
+    type Item = I::Item;
+    fn next(&mut self) -> Option<I::Item> {
+        let r = self.inner.next();
+        if r.is_some() { self.rem -= 1; }
+        r
+    }
+    fn size_hint(&self) -> (usize, Option<usize>) {
+        let lo: usize = kani::any();
+        kani::assume(lo <= self.rem);
+        if kani::any() { (lo, None) } else { let hi: usize = kani::any(); kani::assume(hi >= self.rem); (lo, Some(hi)) }
+    }
+}
+#[kani::proof]
+#[kani::unwind(4)]
+fn q_ms_any_hint() {
+    let n: usize = kani::any();
+    kani::assume(n <= 2);
+    let c = any_cap(2);
+    let mut u: Vec<u32> = Vec::with_capacity(2);
+    let mut b: Vec<Box<u16>> = Vec::with_capacity(2);
+    let mut s: Vec<String> = Vec::with_capacity(2);
+    let mut expect_s = 0usize;
+    let mut i = 0;
+    while i < n {
+        u.push(i as u32); b.push(Box::new(i as u16));
+        let x = String::with_capacity(c + i); expect_s += x.capacity(); s.push(x);
+        i += 1;
+    }
+    assert!(u32::value_size_sum_iter(AnyHint { inner: u.iter(), rem: n }) == n * 4, "value_size_sum_iter trusts size_hint instead of counting (Sized blanket impl)");
+    assert!(u32::heap_size_sum_iter(|| AnyHint { inner: u.iter(), rem: n }) == 0);
+    assert!(Box::<u16>::heap_size_sum_iter(|| AnyHint { inner: b.iter(), rem: n }) == n * 2, "Box bulk helper trusts size_hint instead of counting");
+    assert!(Box::<u16>::value_size_sum_iter(AnyHint { inner: b.iter(), rem: n }) == n * size_of::<Box<u16>>());
+    assert!(String::heap_size_sum_iter(|| AnyHint { inner: s.iter(), rem: n }) == expect_s, "String bulk helper trusts size_hint");
+    assert!(String::value_size_sum_iter(AnyHint { inner: s.iter(), rem: n }) == n * size_of::<String>());
+}
+
 // ---- C08: arrays inside containers (SizedArrayFlatIterator), including length 0 ---------------------------
 #[kani::proof]
 #[kani::unwind(5)]
@@ -185,6 +226,25 @@ fn q_ms_alloc_nested() {
     assert!(o.heap_size() == expect);
     let t = (o, Wrapping(3u8));
     assert!(t.heap_size() == expect);
+}
+
+// ---- C09: BinaryHeap holds capacity()*size_of::<T>() bytes plus its elements, also when it is (or has become) empty ----
+#[kani::proof]
+#[kani::unwind(5)]
+fn q_ms_alloc_binheap() {
+    let c = any_cap(3);
+    let n: usize = kani::any();
+    kani::assume(n <= 2);
+    let mut b: std::collections::BinaryHeap<u32> = std::collections::BinaryHeap::with_capacity(c);
+    assert!(b.heap_size() == b.capacity() * 4, "BinaryHeap: reserved but unused capacity not counted");
+    let mut i = 0;
+    while i < n { b.push(i as u32); i += 1; }
+    assert!(b.heap_size() == b.capacity() * 4);
+    if kani::any() { b.clear(); }
+    assert!(b.heap_size() == b.capacity() * 4, "BinaryHeap: an emptied heap keeps its buffer");
+    let mut h: std::collections::BinaryHeap<Box<u16>> = std::collections::BinaryHeap::with_capacity(c);
+    if kani::any() { h.push(Box::new(1)); }
+    assert!(h.heap_size() == h.capacity() * size_of::<Box<u16>>() + h.len() * 2);
 }
 
 // ---- thorough -------------------------------------------------------------------------------------------------------
